@@ -5,7 +5,7 @@
 # usage: selftest.sh [id ...]      (default: all)
 cd /repo || exit 2
 if ! git diff --quiet; then echo "repo dirty"; exit 2; fi
-export GOFLAGS=-mod=mod GOPROXY=off
+export GOFLAGS=-mod=mod GOPROXY=off GOVC_EVIDENCE_DIR=$(mktemp -d /tmp/govc-ev-XXXX)
 ids="$@"
 [ -z "$ids" ] && ids="$(ls /verif/seeded) $(ls /verif/seeded-benign 2>/dev/null | sed 's/^/benign:/')"
 missed=0; alarms=0
